@@ -1084,6 +1084,20 @@ theorem run_ladders_agree :
     Generated.hierarchy.lookup "StopPipeline" = some ["Stop"] ∧ Generated.hierarchy.lookup "StopStepGroup" = some ["Stop"] := by
   refine ⟨?_, ?_, ?_, ?_, ?_, ?_, ?_, ?_⟩ <;> rfl
 
+/-- **No `except` clause between a step and `cli.main` can match an interrupt**: in every extracted `try`
+    statement of the functions that route exceptions during a run (`Step.invoke_step`,
+    `run_conditional_decorators`, `RetryDecorator.exec_iteration`, `run_step_group`, `run_failure_step_group`,
+    `run_step_groups`, `pype.run_step`, `Pipeline._run_pipeline`, `Pipeline.run`) no clause names
+    `BaseException` (a bare `except:` is extracted as `BaseException`), `KeyboardInterrupt` or `SystemExit`. -/
+theorem no_run_ladder_catches_interrupt :
+    ∀ site ∈ Generated.ladders, ∀ clause ∈ site.2.1,
+      clauseCatches clause.1 .keyboardInterrupt = false ∧ clauseCatches clause.1 (.systemExit .absent) = false ∧
+      clauseCatches clause.1 (.baseOther "" "") = false := by
+  decide +kernel
+
+example : Generated.ladders.length = 13 ∧ clauseCatches ["BaseException"] .keyboardInterrupt = true ∧
+    clauseCatches ["Exception"] .keyboardInterrupt = false ∧ clauseCatches ["Stop"] .stopPipeline = true := by decide +kernel
+
 /-- the `try` body of `run_step_groups` never lets a `StopStepGroup` out (`run_step_group` ends the group) -/
 theorem tryBody_ne_stopStepGroup (mains : List Raised) (success : Option Raised) :
     tryBody mains success ≠ .stopStepGroup := by
